@@ -25,7 +25,7 @@ class Cfg:
 
     def __init__(self, version="v2c", community="public", user="user", engine_id=b"", auth=None, priv=None,
                  auth_kt="password", priv_kt="password", auth_secret=b"authpass1234", priv_secret=b"privpass1234",
-                 via_set_keys=False):
+                 via_set_keys=False, shared_key_objects=False):
         self.version = version
         self.community = community
         self.user = user
@@ -39,6 +39,9 @@ class Cfg:
         # True: the session is first created with other credentials and the real ones are installed with set_keys()
         # (the path the clients take after engine-id discovery)
         self.via_set_keys = bool(via_set_keys)
+        # True: the privacy *password* key object handed to User() was handed to another User (other digest) before -
+        # applications build one key object from their configuration and reuse it
+        self.shared_key_objects = bool(shared_key_objects)
 
     def describe(self):
         if self.version != "v3":
@@ -96,6 +99,9 @@ class Cfg:
             ak = {"md5": U.Md5Key, "sha1": U.Sha1Key}[self.auth](self.auth_material(eid), key_type=kt[self.auth_kt])
         if self.priv:
             pk = {"des": U.DesKey, "aes": U.Aes128Key}[self.priv](self.priv_material(eid), key_type=kt[self.priv_kt])
+            if self.shared_key_objects and self.priv_kt == "password" and self.auth:
+                other = {"md5": U.Sha1Key, "sha1": U.Md5Key}[self.auth](b"some-other-users-password")
+                U.User("someone-else", auth_key=other, priv_key=pk)
         return U.User(self.user, auth_key=ak, priv_key=pk)
 
 
